@@ -320,6 +320,19 @@ pub fn batch(req: &J) -> J {
         };
         out["after"] = observe(&st, &probes);
         out["order"] = json!(order);
+        if let Some(phase) = req.get("melmint_only").and_then(|p| p.as_str()) {
+            // one phase of preseal_melmint on the state the batch left behind (verification hook)
+            let st2 = st.clone();
+            let phase = phase.to_string();
+            match catch_unwind(AssertUnwindSafe(move || melstf::verif::phase(&phase, st2))) {
+                Err(_) => { out["melmint"] = json!({"panicked": true, "msg": crate::last_panic()}); }
+                Ok(u) => {
+                    let mut o = observe(&u, &probes);
+                    o["panicked"] = json!(false);
+                    out["melmint"] = o;
+                }
+            }
+        }
         if let Some(seal) = req.get("seal") {
             let action = if seal.is_null() { None } else {
                 Some(ProposerAction { fee_multiplier_delta: seal["delta"].as_i64().unwrap_or(0) as i8,
